@@ -867,12 +867,17 @@ impl<'r> Gen<'r> {
             }
             47 if self.feat.records => {
                 // record / enum types reachable only through their instances
+                // (a type must be bound to a global when it is first used; the global is re-bound afterwards)
                 let n = self.fresh("r");
+                let tmp = self.fresh("Tt");
                 if self.rng.bool() {
-                    self.stmts.push(format!("{n} = record(p = int, q = field(list, []))(p = {}, q = [{}])", self.rng.below(50), self.rng.below(9)));
+                    self.stmts.push(format!("{tmp} = record(p = int, q = field(list, []))"));
+                    self.stmts.push(format!("{n} = {tmp}(p = {}, q = [{}])", self.rng.below(50), self.rng.below(9)));
                 } else {
-                    self.stmts.push(format!("{n} = enum(\"north\", \"south\")(\"south\")"));
+                    self.stmts.push(format!("{tmp} = enum(\"north\", \"south\")"));
+                    self.stmts.push(format!("{n} = {tmp}(\"south\")"));
                 }
+                self.stmts.push(format!("{tmp} = None"));
                 self.bind(&n, Kind::Other);
             }
             48 if self.feat.closures => {
@@ -923,7 +928,7 @@ impl<'r> Gen<'r> {
                     None => "{\"k\": [1]}".to_owned(),
                 };
                 self.stmts.push(format!("{t} = record(a = field(list, {lit}), b = field(dict, {d2}), c = field(typing.Any, ({lit}, \"s\" * 3)), n = int)"));
-                self.bind(&t, Kind::RecordType);
+                self.bind(&t, Kind::Other);
                 let r1 = self.fresh("r");
                 let r2 = self.fresh("r");
                 self.stmts.push(format!("{r1} = {t}(n = 1)"));
@@ -967,7 +972,7 @@ impl<'r> Gen<'r> {
                 match (self.rng.below(3), rt) {
                     (0, _) => self.stmts.push(format!("def {f}(x: int | str, y: list = {lit}) -> list:\n    return [x] + y")),
                     (1, Some(r)) => self.stmts.push(format!("def {f}(x, r: {r} | None = None) -> list[typing.Any]:\n    return [x, r]")),
-                    _ => self.stmts.push(format!("def {f}(x: typing.Any, *a: int, k: dict[str, list] = {{\"d\": {lit}}}, **kw: str) -> tuple:\n    return (x, a, k, kw)")),
+                    _ => self.stmts.push(format!("def {f}(x: typing.Any, *a, k: dict[str, list] = {{\"d\": {lit}}}, **kw) -> tuple:\n    return (x, a, k, kw)")),
                 }
                 self.bind(&f, Kind::PureFunc1);
             }
